@@ -92,7 +92,8 @@ def gen_cases(ctx):
       mono = int(rng.choice([-1, 0, 1]))
       yield {"kind": kind, "kp": [float(v) for v in kp], "units": units, "mono": mono, "conv": 0, "bounds": b, "omin": omin, "omax": omax,
              "clamp_min": bool(mono and omin is not None and rng.rand() < .3), "clamp_max": bool(mono and omax is not None and rng.rand() < .3),
-             "init": str(rng.choice(["equal_heights", "equal_slopes"])), "cyclic": bool(mono == 0 and rng.rand() < .2), "seed": seed}
+             "init": str(rng.choice(["equal_heights", "equal_slopes"])), "cyclic": bool(mono == 0 and rng.rand() < .2), "seed": seed,
+             "kp_type": "learned_interior" if rng.rand() < .35 else "fixed"}
       # is_cyclic with equal_slopes cannot be built at all (TypeError in the initializer): that is C16's known finding KF-C16-c
     elif kind == "kfl":
       dims = int(rng.randint(1, 4))
@@ -107,13 +108,25 @@ def gen_cases(ctx):
              "init": str(rng.choice(["uniform", "constant"])), "seed": seed}
 
 
-def _assert_ok(ctx, site, layer, what):
+def _assert_ok(ctx, site, layer, what, scale=None):
+  """The layer's own assert_constraints().  Its default eps is an absolute 1e-6; PWLCalibration evaluates call() at the
+  float32 keypoints, whose interpolation weight at the last keypoint can round to 1 - 1e-6, so an exactly feasible kernel of
+  magnitude 4 is reported 4e-6 off its clamp.  With `scale` given, a rejection at the default eps is re-judged at
+  eps = 1e-5 * scale - the rounding allowance used by every other oracle here - and only that verdict counts."""
   tf = _state["tf"]
   try:
     layer.assert_constraints()
     ctx.check(site, True)
     return True
   except tf.errors.InvalidArgumentError as e:
+    if scale is not None and core.REL_TOL * scale > 1e-6:
+      try:
+        layer.assert_constraints(eps=core.REL_TOL * scale)
+        ctx.note("assert_constraints:default-eps-below-float32-rounding")
+        ctx.check(site, True)
+        return True
+      except tf.errors.InvalidArgumentError:
+        pass
     return str(e).strip().splitlines()[0][:200]
   except Exception as e:
     ctx.check(site, False, "%s: assert_constraints() raised %s: %s" % (what, type(e).__name__, str(e)[:200]))
@@ -214,11 +227,12 @@ def _run_pwl(ctx, case, st):
   try:
     layer = tfl.layers.PWLCalibration(input_keypoints=kp, units=units, monotonicity=mono, output_min=case["omin"], output_max=case["omax"],
                                       clamp_min=case["clamp_min"], clamp_max=case["clamp_max"], kernel_initializer=case["init"],
-                                      is_cyclic=case["cyclic"])
+                                      is_cyclic=case["cyclic"], input_keypoints_type=case.get("kp_type", "fixed"))
     layer.build((None, 1))
   except ValueError as e:
     ctx.note("rejected:pwl:" + str(e)[:60])
     return False, None
+  ctx.cls("pwl:keypoints=" + case.get("kp_type", "fixed"), "pwl:units=%d" % units)
   K = layer.kernel.numpy().astype(np.float64)
   outs = np.cumsum(K, axis=0)
   imin, imax = layer._output_init_min, layer._output_init_max
@@ -249,7 +263,32 @@ def _run_pwl(ctx, case, st):
   if case["omax"] is not None and outs.max() > case["omax"] + tol:
     msgs.append("initial outputs above output_max")
   ctx.check("PWLCalibration.init/shape", not msgs, "; ".join(msgs), info={"keypoint_outputs": outs[:, 0].tolist(), "init_range": [imin, imax]})
-  r = _assert_ok(ctx, "PWLCalibration.init/assert_constraints", layer, "PWLCalibration")
+  # the initial *function*, through call(): it passes through the configured keypoints (fixed or learned: the initial
+  # learned keypoints are the configured ones) at the equal-heights / equal-slopes values, in every unit
+  kp64 = np.asarray(kp, dtype=np.float64)
+  rng_ = kp64[-1] - kp64[0]
+  ki = layer.keypoints_inputs().numpy().astype(np.float64)            # (nk, units) or (nk,)
+  ki = ki.reshape(len(kp64), -1)
+  dk = float(np.abs(ki - kp64[:, None]).max())
+  ctx.check("PWLCalibration.init/keypoints-are-the-configured-ones", dk <= 1e-5 * max(1.0, rng_, np.abs(kp64).max()),
+            "fresh layer reports keypoints %.6g away from input_keypoints" % dk, info={"reported": ki.T.tolist(), "configured": kp64.tolist()})
+  if not case["cyclic"]:
+    nk = len(kp64)
+    if case["init"] == "equal_heights":
+      want_kp = np.linspace(start, end, nk)
+    else:
+      want_kp = start + (end - start) * (kp64 - kp64[0]) / rng_
+    mids = (kp64[:-1] + kp64[1:]) / 2
+    xs = np.concatenate([kp64, mids])
+    want = np.concatenate([want_kp, (want_kp[:-1] + want_kp[1:]) / 2])
+    y = layer(tf.constant(xs.reshape(-1, 1).astype(np.float32))).numpy().astype(np.float64).reshape(len(xs), -1)
+    seg = np.abs(np.diff(want_kp)) / np.diff(kp64)
+    tf_ = 1e-4 * core.scale_of(want, [imin, imax]) + float(seg.max()) * 1e-5 * max(1.0, rng_, np.abs(kp64).max())
+    e = float(np.abs(y - want[:, None]).max())
+    ctx.check("PWLCalibration.init/function-shape", e <= tf_,
+              "fresh %s layer is off its %s function by %.3g (tol %.3g) in some unit" % (case.get("kp_type", "fixed"), case["init"], e, tf_),
+              info={"x": xs.tolist(), "want": want.tolist(), "got": y.T.tolist()}, ratio=e / tf_)
+  r = _assert_ok(ctx, "PWLCalibration.init/assert_constraints", layer, "PWLCalibration", scale=core.scale_of(outs, [imin, imax]))
   if r is not True:
     ctx.check("PWLCalibration.init/assert_constraints", False, "fresh PWLCalibration fails its own assert_constraints(): %s" % r)
   c = layer.kernel.constraint
